@@ -6,9 +6,9 @@ import (
 	"context"
 	"encoding/binary"
 	"fmt"
-	"os"
 	"hash/crc32"
 	"math/big"
+	"os"
 	"sort"
 	"time"
 
